@@ -146,13 +146,26 @@ def dict_keys(model, R):
                 f'lattices.Lattice._fromlist({inst}, lattice, {fd.params[4]})', src(v))
         guard = [s for s in fd.body if isinstance(s, ast.If) and att[0] in s.body]
         ok = False
+        decided_guard = False
         if guard:
-            t = guard[0].test
-            if isinstance(t, ast.BoolOp) and isinstance(t.op, ast.And) and len(t.values) == 2:
-                parts = {src(x) for x in t.values}
-                ok = parts == {f'not {fd.params[2]}', 'lattice is not None'}
+            from .. import guards as _guards
+            import itertools as _it
+
+            def atomizer(n_):
+                if name_is(n_, fd.params[2]):
+                    return ('Ignore', True)
+                nt = is_none_test(n_)
+                if nt and nt[0] == 'lattice':
+                    return ('NoLattice', nt[1])
+                return None
+            try:
+                fm = _guards.compile_formula(guard[0].test, atomizer)
+                ok = all(fm(dict(zip(('Ignore', 'NoLattice'), bits))) == (not bits[0] and not bits[1]) for bits in _it.product((False, True), repeat=2))
+                decided_guard = True
+            except Unrecognised:
+                ok = False
         R.check(ok, 'AGREEMENT', fd, guard[0] if guard else att[0], 'stored lattice used iff present and not ignored', f'if not {fd.params[2]} and lattice is not None:',
-                src(guard[0].test) if guard else 'unguarded')
+                src(guard[0].test) if guard else 'unguarded', strict=True if (decided_guard or not guard) else None)
     lp = model.cls('tools.lazyproperty')
     g = lp.methods.get('__get__')
     ok = False
@@ -253,10 +266,12 @@ def literal_and_json(model, R):
     ok = False
     if len(calls) == 1:
         c = calls[0]
-        a0 = env.expand(c.args[0])
-        kws = {k.arg: src(k.value) for k in c.keywords}
+        # dump_json(obj, path_or_fileobj, *, encoding, mode, **kwargs): arguments bound by that signature, however they are spelled
+        cb = model.bind(tj, c) or {}
+        kws = {k: src(v) for k, v in cb.items()}
+        a0 = env.expand(cb['obj']) if 'obj' in cb else None
         b0 = (model.bind(tj, a0) or {}) if isinstance(a0, ast.Call) and chain(a0.func) == ['self', 'todict'] else None
-        ok = (b0 is not None and {k: src(v) for k, v in b0.items()} == {'ignore_lattice': tj.params[5]} and src(c.args[1]) == tj.params[1]
+        ok = (b0 is not None and {k: src(v) for k, v in b0.items()} == {'ignore_lattice': tj.params[5]} and kws.get('path_or_fileobj') == tj.params[1]
               and kws.get('encoding') == 'encoding' and kws.get('indent') == 'indent' and kws.get('sort_keys') == 'sort_keys')
     R.check(ok, 'AGREEMENT', tj, calls[0] if calls else tj.node, 'tojson dumps todict with the caller\'s flags',
             'tools.dump_json(self.todict(ignore_lattice=ignore_lattice), path_or_fileobj, encoding=..., indent=..., sort_keys=...)', src(calls[0])[:160] if calls else '')
